@@ -60,6 +60,12 @@ def cases(draw, tier="quick"):
             # shared generator; resolution must not change them either
             if td["bound"]["b"] == "F" and draw(st.integers(0, 3)) == 0:
                 td["bound"] = {"b": "F", "idx": []}
+    forced = None
+    if draw(st.booleans()):
+        # one definition without parameters whose bound is the join over nothing (= copyable), used below
+        forced = pool[0]["types"][0]
+        forced["params"] = []
+        forced["bound"] = {"b": "F", "idx": []}
     tdefs = [dict(td) for e in pool for td in e["types"]]
 
     def ext_type(depth):
@@ -139,7 +145,10 @@ def cases(draw, tier="quick"):
                 "drop_ops": draw(st.lists(st.sampled_from([o["name"] for o in e["ops"]]), max_size=1, unique=True)),
             }
         )
-    return {"pool": pool, "ops": ops, "registry": reg, "std": draw(st.booleans()), "bare": draw(st.lists(T, max_size=2))}
+    bare = draw(st.lists(T, max_size=2))
+    if forced is not None:
+        bare.append({"k": "tuple", "ts": [{"k": "ext", "def": dict(forced), "args": []}]})
+    return {"pool": pool, "ops": ops, "registry": reg, "std": draw(st.booleans()), "bare": bare}
 
 
 # ------------------------------------------------------------------ interpretation
